@@ -851,3 +851,7 @@ def run(ctx, c04):
     run_env(ctx, c04, random.Random(seeds[1]))
     run_split(ctx, random.Random(seeds[2]))
     run_env_fuzz(ctx, c04, random.Random(seeds[3]))
+    # histories: several documents of changing element counts through the same class, on the three engines
+    import sys
+    from harness.props import c04_hist
+    c04_hist.run(ctx, c04, sys.modules[__name__], [ctx.rng.random() for _ in range(4)])
